@@ -1,7 +1,7 @@
 SPECIFICATION CSpec
 CONSTANTS
   Addr = {1, 2}
-  Desc = {"ListStr", "DictStrFloat", "TupIntStr", "ListMy", "ListUIF", "ListUFI", "ListLitFloat", "ClsCamel"}
+  Desc = {"ListStr", "DictStrFloat", "TupIntStr", "ListMy", "ListUIF", "ListUFI", "ListLitFloat", "ClsCamel", "InnerG", "OuterH1"}
   HS = {"h0", "h1"}
   Threads = {1, 2}
   PinKeyArgs = FALSE
